@@ -489,7 +489,17 @@ GEN_MERGE = [dict(consts=dict(Features=FEAT_MERGE, MaxOps=7, MaxFaults=0, MaxMer
              dict(consts=dict(Features=FEAT_MERGE, MaxOps=7, MaxFaults=0, MaxMerges=2, MaxRestarts=3, MaxBatch=2, Limits='{1, 2, 3}'), num=200, thorough_num=2000, depth=100)]
 GEN_MAP = [dict(consts=dict(Features=FEAT_MAP, MaxOps=10, MaxFaults=0, MaxMerges=1, MaxRestarts=2, MaxBatch=3), num=300, thorough_num=3000, depth=100)]
 GEN_SYNC = [dict(consts=dict(Features='{"batch", "syncbatch", "delete", "sync", "restart"}', MaxOps=8, MaxFaults=0, MaxMerges=0, MaxRestarts=1, SyncAlways='TRUE'), num=200, thorough_num=2000, depth=80)]
+def goal_family(name, goals, **kw):
+    """spec -> code, directed: the shortest behaviour of XiXiKVGen to each goal (TLC breadth-first), replayed under six configurations"""
+    d = dict(profile='gen', name=name, spec='CrashTrace', enforce=['recok', 'view'], consts=CRASH_CONSTS, sig=crash_sig,
+             prepare=mbt.prepare_goals, goals=goals, reps=6, quick_seeds=1, thorough_seeds=1)
+    d.update(kw)
+    return d
 PROPS['C03']['traces'].append(gen_family('gencrash', GEN_CRASH))
+PROPS['C03']['traces'].append(goal_family('goalscrash', ['TornLaterFile', 'PowerAfterMark', 'SyncBatchThenLoss']))
+PROPS['C04']['traces'].append(goal_family('goalsbatch', ['BatchPieceOrphan', 'SyncBatchThenLoss']))
+PROPS['C06']['traces'].append(goal_family('goalsmerge', ['EmptyMergeAfterAdopt', 'TwoCycles', 'GiveUpThenAdopt', 'OrphanTombstone']))
+PROPS['C07']['traces'].append(goal_family('goalsadopt', ['AdoptHalf', 'AdoptHintMoved', 'AdoptUnmarked', 'AdoptTwice'], thorough_goals=['LeftoverThenAdopt']))
 PROPS['C04']['traces'].append(gen_family('genbatch', GEN_BATCH, enforce=['recok', 'view', 'c13batch']))
 PROPS['C07']['traces'].append(gen_family('genmergecrash', GEN_MERGEC))
 PROPS['C06']['traces'].append(gen_family('genmerge', GEN_MERGE))
